@@ -17,6 +17,12 @@ impl fmt::Display for MaxZError {
 
 impl Error for MaxZError {}
 
+/// Returns `true` if `z`/`x`/`y` denote a tile: `z` is a zoom level whose ids fit
+/// into 64 bits and `x` and `y` lie inside the grid of that zoom level.
+pub(crate) const fn is_valid_zxy(z: u8, x: u64, y: u64) -> bool {
+    z < MAX_Z && x < (1u64 << z) && y < (1u64 << z)
+}
+
 /// Converts z/x/y coordinates to a tile id.
 ///
 /// # Arguments
